@@ -230,3 +230,78 @@ func (s *Solver) Probe(query string, sec int) Answer {
 	s.mu.Unlock()
 	return a
 }
+
+// SolveEither decides a goal that has two equivalent formulations: both are raced (newest z3 on each);
+// the first definite answer wins.  Falls back to the full portfolio on the first formulation.
+func (s *Solver) SolveEither(q1, q2 string) Answer {
+	type res struct {
+		a   Answer
+		idx int
+	}
+	keyOf := func(q string) (string, string) {
+		h := sha256.Sum256([]byte(q))
+		k := hex.EncodeToString(h[:12])
+		return k, filepath.Join(s.OutDir, "q", k+".smt2")
+	}
+	k1, f1 := keyOf(q1)
+	k2, f2 := keyOf(q2)
+	if s.CacheOn {
+		s.mu.Lock()
+		a1, ok1 := s.cache[k1]
+		a2, ok2 := s.cache[k2]
+		s.mu.Unlock()
+		if ok1 && a1.Result == "unsat" {
+			a1.Cached, a1.File = true, f1
+			return a1
+		}
+		if ok2 && a2.Result == "unsat" {
+			a2.Cached, a2.File = true, f2
+			return a2
+		}
+	}
+	os.WriteFile(f1, []byte(q1), 0o644)
+	os.WriteFile(f2, []byte(q2), 0o644)
+	sec := int(s.Timeout.Seconds())
+	start := time.Now()
+	ctx, cancel := context.WithTimeout(context.Background(), time.Duration(sec+2)*time.Second)
+	defer cancel()
+	ch := make(chan res, 2)
+	for i, f := range []string{f1, f2} {
+		i, f := i, f
+		go func() {
+			r, out := runOne(ctx, solverCmds[0].bin, solverCmds[0].args(sec), f)
+			ch <- res{Answer{Result: r, Solver: solverCmds[0].name, Output: out, File: f}, i}
+		}()
+	}
+	best := Answer{Result: "timeout", Solver: "all", File: f1}
+	for n := 0; n < 2; n++ {
+		r := <-ch
+		if r.a.Result == "unsat" || r.a.Result == "sat" {
+			cancel()
+			r.a.Ms = time.Since(start).Milliseconds()
+			s.mu.Lock()
+			s.Stats[r.a.Solver+":"+r.a.Result]++
+			s.TotalMs += r.a.Ms
+			c := r.a
+			c.Output, c.File = "", ""
+			if r.idx == 0 {
+				s.cache[k1] = c
+			} else {
+				s.cache[k2] = c
+			}
+			s.dirty = true
+			s.mu.Unlock()
+			return r.a
+		}
+		if r.a.Result == "unknown" {
+			best = r.a
+		}
+	}
+	// neither formulation decided by the newest z3: full portfolio on the first one
+	a := s.Solve(q1)
+	if a.Result == "unsat" || a.Result == "sat" {
+		return a
+	}
+	best.Ms = time.Since(start).Milliseconds()
+	return best
+}
